@@ -368,9 +368,11 @@ var nodeDefs = map[string]nodeDef{
 	"changedetect":  {"|changeDetect('v')", false, 0},
 	"evalsigma":     {"|eval(lambda: sigma(\"v\"))\n    .as('o')", false, 0},
 	"evalspread":    {"|eval(lambda: spread(\"v\"), lambda: count())\n    .as('o', 'c')", false, 0},
+	"eval2":         {"|eval(lambda: \"w\" + 1, lambda: count(), lambda: \"c\" %% 2)\n    .as('o', 'c', 'r')", false, 0},
 	"wheresigma":    {"|where(lambda: sigma(\"v\") < 1.0)", false, 0},
 	"alertsigma":    {"|alert()\n    .warn(lambda: sigma(\"v\") > 1.0)\n    .crit(lambda: \"v\" > %d)\n    .levelField('o')\n    .durationField('d')\n    .idField('i')", false, 1},
 	"alertlevels":   {"|alert()\n    .info(lambda: \"v\" > %d)\n    .warn(lambda: \"v\" > %d + 2)\n    .crit(lambda: \"v\" > 8)\n    .critReset(lambda: \"v\" < 3)\n    .levelField('o')\n    .durationField('d')\n    .idTag('i')", false, 2},
+	"alertreset":    {"|alert()\n    .warn(lambda: \"v\" > 2)\n    .warnReset(lambda: count() %% 3 == 0)\n    .crit(lambda: \"v\" > %d + 3)\n    .critReset(lambda: count() %% 2 == 0)\n    .levelField('o')", false, 1},
 	"alertsco":      {"|alert()\n    .warn(lambda: \"v\" > %d)\n    .crit(lambda: \"v\" > 8)\n    .stateChangesOnly()\n    .levelField('o')\n    .durationField('d')\n    .messageField('m')", false, 1},
 	"alertflap":     {"|alert()\n    .crit(lambda: \"v\" > %d)\n    .flapping(0.25, 0.5)\n    .history(5)\n    .levelField('o')", false, 1},
 	"last":          {"|last('v')\n    .as('o')", false, 0},
